@@ -239,7 +239,8 @@ def audit(prop):
         fh.write("import LpProofs.%s\n" % prop)
         for n in names:
             fh.write("#print axioms %s\n" % n)
-    r = run_cmd(["lake", "env", "lean", f], cwd=LEAN)
+    with Lock("lake"):   # a concurrent thorough run of another property may be rebuilding imported modules
+        r = run_cmd(["lake", "env", "lean", f], cwd=LEAN)
     os.unlink(f)
     out = r.stdout
     for n in names:
@@ -256,7 +257,8 @@ def audit(prop):
 
 
 def leanchecker(prop):
-    r = run_cmd(["lake", "env", "leanchecker", "LpProofs." + prop], cwd=LEAN)
+    with Lock("lake"):
+        r = run_cmd(["lake", "env", "leanchecker", "LpProofs." + prop], cwd=LEAN)
     return r.returncode == 0, r.stdout[-1500:]
 
 
